@@ -191,9 +191,12 @@ func (k Keeper) ValidateClaim(ctx sdk.Ctx, claim pc.MsgClaim) (err sdk.Error) {
 	}
 	// get the session node count for the time of the session
 	sessionNodeCount := int(k.SessionNodeCount(sessionContext))
-	// check cache
-	session, found := pc.GetSession(claim.SessionHeader, pc.GlobalSessionCache)
-	if !found {
+	// the session is always generated from chain state here, never taken from the node-local
+	// session cache: that cache is filled by dispatch and relay requests at whatever moment they
+	// arrive (also between the BeginBlock that jails a node and the Commit of that block), and the
+	// result of a transaction must not depend on which of those requests this node served
+	var session pc.Session
+	{
 		// use the session end context to ensure that people who were jailed mid session do not get to submit claims
 		sessionEndCtx, er := ctx.PrevCtx(sessionEndHeight)
 		if er != nil {
